@@ -299,7 +299,7 @@ def run(ctx):
             fl.append({"spec": s, "expected": list(sub)})
     work += _chunks("filter", fl, 400)
 
-    L = 4 if quick else 7
+    L = 4 if quick else 8
     strings = []
     for n in range(0, L + 1):
         for tup in itertools.product(SYMS, repeat=n):
